@@ -630,13 +630,10 @@ Theorem propagate_empty_join_sound : forall on wl wr (L R : rel),
   join JFull on wl wr L [] = map (fun l => l ++ nulls wr) L /\
   join JFull on wl wr [] R = map (fun r => nulls wl ++ r) R.
 Proof.
-  intros. cbn [join]. repeat split; try reflexivity.
-  - apply inner_join_nil_r.
-  - apply left_join_nil_r_gen.
-  - apply right_join_nil_l_gen.
+  intros. cbn [join]. repeat split;
+    try reflexivity; try apply inner_join_nil_r; try apply left_join_nil_r_gen; try apply right_join_nil_l_gen.
   - unfold full_join, unmatched_right. cbn [filter map]. rewrite app_nil_r. apply left_join_nil_r_gen.
-  - unfold full_join, unmatched_right. cbn [left_join flat_map app]. f_equal.
-    apply (filter_ext_in' _ (fun _ => true) R (fun _ _ => eq_refl)) || (rewrite filter_true; reflexivity).
+  - unfold full_join, unmatched_right. cbn [left_join flat_map app existsb negb]. rewrite filter_true. reflexivity.
 Qed.
 Theorem propagate_empty_left_join_right_refuted :
   exists on wl wr L, join JLeft on wl wr L [] <> [].
